@@ -1,5 +1,90 @@
 import SSModel.Extract
 import SSLemmas.Extract
-/-! C16 — placeholder; theorems follow. -/
+/-!
+C16 — `Frame.origin` and `extract_outermost` keep their documented contracts.
+Property theorems only; model `SSModel/Extract.lean` (`run`, `runFirst`), lemmas `SSLemmas/Extract.lean`.
+-/
 open SS.Extract
-theorem C16_placeholder : True := trivial
+
+/-- **origin is the owner**: in every finished extraction, each frame's origin (if not None) is a
+coroutine / generator / async-generator object whose own frame is that very frame. -/
+theorem C16_origin_is_owner (env : Env) (fuel : Nat) (x : Item) (fs : List OutFrame) (l : Leaf) (es : List Err)
+    (h : extract env fuel x = .done fs l es) :
+    ∀ f ∈ fs, ∀ o, f.frame.origin = some o → env.genLike o = true ∧ env.frameOf o = some f.frame.pyframe := by
+  intro f hf
+  refine run_ok env fuel (initSt env x) fs l es h ?_ f hf
+  refine ⟨?_, by simp [initSt], by simp [initSt]⟩
+  intro q hq
+  simp [initSt] at hq
+  subst hq
+  trivial
+
+/-- What `extract_outermost` must do given the complete extraction's result. -/
+def outermostSpec : Outcome → OutermostRes
+  | .done (f :: _) _ _ => .frame f
+  | .done [] l [] => .raiseNoFrame l
+  | .done [] _ [e] => .raiseRecorded e
+  | .done [] _ es => .raiseGroup es
+  | .outOfFuel => .outOfFuel
+
+/-- **extract_outermost = head of extract**: whenever the full extraction finishes, `extract_outermost`
+returns exactly its first frame (same record, same `hide` flag), and raises exactly when there is
+none — the recorded error if there is one, the group if several, else the no-frame RuntimeError. -/
+theorem C16_outermost_head (env : Env) (fuel : Nat) (s : St) (fs : List OutFrame) (l : Leaf) (es : List Err)
+    (hout : s.out = []) (h : run env fuel s = .done fs l es) :
+    runFirst env fuel s = outermostSpec (.done fs l es) := by
+  cases fuel with
+  | zero => simp [run] at h
+  | succ n =>
+    unfold run at h
+    unfold runFirst
+    cases hp : unwrapPhase env (n+1) s with
+    | none => rw [hp] at h; cases h
+    | some s' =>
+      rw [hp] at h
+      simp only [] at h ⊢
+      have ho' : s'.out = [] := by rw [unwrapPhase_out env _ s s' hp, hout]
+      rcases elabStep_shape env s' with ⟨l', hl⟩ | ⟨s'', x, errs, hs'', hx, _⟩
+      · rw [hl] at h ⊢
+        cases h
+        rw [ho']
+        simp only []
+        cases s'.errors with
+        | nil => rfl
+        | cons e rest => cases rest <;> rfl
+      · rw [hs''] at h ⊢
+        simp only []
+        have hpre := run_out_prefix env n s'' fs l es h
+        rw [hx, ho'] at hpre ⊢
+        simp only [List.nil_append]
+        obtain ⟨t, ht⟩ := hpre
+        simp at ht
+        subst ht
+        rfl
+
+theorem C16_extract_outermost (env : Env) (fuel : Nat) (x : Item) (fs : List OutFrame) (l : Leaf) (es : List Err)
+    (h : extract env fuel x = .done fs l es) :
+    extractOutermost env fuel x = outermostSpec (.done fs l es) :=
+  C16_outermost_head env fuel (initSt env x) fs l es (by simp [initSt]) h
+
+/-- **round trip**: for a generator-like object `o` that unwraps to its own frame first (as the built-in
+glue does for suspended and running coroutines / generators / async generators), whenever
+`extract(o)` finishes its first frame is `o`'s own frame with `o` as origin — so
+`extract_outermost(f.origin).pyframe is f.pyframe` for every frame carrying an origin. -/
+theorem C16_origin_roundtrip (env : Env) (fuel : Nat) (o f : Item) (rest : List (Option Item))
+    (ho : env.isFrame o = false) (hw : env.weakrefable o = true) (hg : env.genLike o = true)
+    (hfo : env.frameOf o = some f) (hf : env.isFrame f = true) (hfg : env.genLike f = false)
+    (hu : env.unwrap o = .seq (some f :: rest)) (hG : 1 ≤ SS.Gen.unwrapGuard)
+    (fs : List OutFrame) (l : Leaf) (es : List Err) (h : extract env fuel o = .done fs l es) :
+    ∃ hide tl, fs = ⟨⟨f, some o⟩, hide⟩ :: tl :=
+  origin_roundtrip env fuel o f rest ho hw hg hfo hf hfg hu hG fs l es h
+
+/-! non-vacuity: a two-level generator chain -/
+def genEnv : Env :=
+  { isFrame := fun i => i ≥ 100, unwrap := fun i => if i = 1 then .seq [some 101, some 2] else if i = 2 then .seq [some 102, none] else .none
+    elabFn := fun _ _ => .none, elabHide := fun _ => false, weakrefable := fun i => i < 100
+    genLike := fun i => i = 1 || i = 2, frameOf := fun i => if i = 1 then some 101 else if i = 2 then some 102 else none
+    withContexts := false, ctxErrs := fun _ => [] }
+
+example : extract genEnv 20 1 = .done [⟨⟨101, some 1⟩, false⟩, ⟨⟨102, some 2⟩, false⟩] .none [] := by decide +kernel
+example : extractOutermost genEnv 20 2 = .frame ⟨⟨102, some 2⟩, false⟩ := by decide +kernel
